@@ -291,6 +291,16 @@ func (f *BytecodeFunction) AppendUint32(n uint32) {
 // Size of an integer.
 type IntSize uint8
 
+// Check whether two references are the same object.
+// References of uncomparable Go types (eg. map based records) are never the same,
+// comparing them with `==` would panic.
+func sameReference(a, b value.Reference) bool {
+	if !reflect.TypeOf(a).Comparable() || !reflect.TypeOf(b).Comparable() {
+		return false
+	}
+	return a == b
+}
+
 // Add a value to the value pool.
 // Returns the index of the constant.
 func (f *BytecodeFunction) AddValue(obj value.Value) (int, IntSize) {
@@ -305,7 +315,7 @@ func (f *BytecodeFunction) AddValue(obj value.Value) (int, IntSize) {
 				continue
 			}
 
-			if value.AsReference() == objRef {
+			if sameReference(value.AsReference(), objRef) {
 				i = j
 				id = j
 				break
